@@ -37,7 +37,8 @@ def cases(tier, seed):
             half = str(rng.choice(["left", "right"])) if symc else "full"
             spec = M.random_spec(rng, half=half, nx=int(rng.integers(2, 4)), ny=int(rng.integers(2, 7)), odd_full=False)
             spec["offset"] = [float(np.round(s * rng.uniform(3, 8), 3)), 0.0, float(np.round(s * rng.uniform(0.3, 1.5), 3))]
-            sd = dict(name="s%d" % s, symmetry=symc, mesh=spec, with_viscous=bool(rng.integers(2)), with_wave=bool(rng.integers(2)), CL0=0.0, CD0=0.0,
+            sd = dict(name="s%d" % s, symmetry=symc, mesh=spec, with_viscous=bool(rng.integers(2)), with_wave=bool(rng.integers(2)),
+                      CL0=float(rng.choice([0.0, float(np.round(rng.uniform(-0.1, 0.3), 3))])), CD0=float(rng.choice([0.0, float(np.round(rng.uniform(0.005, 0.02), 4))])),
                       k_lam=float(rng.choice([0.0, 0.05, 0.5, 1.0])))
             if mode == "ground":
                 sd["groundplane"] = True
@@ -131,6 +132,9 @@ def run_laws(c, o):
     Stot = sum(r0["S"].values()) if c.get("sref") is None else c["sref"]
     o.close("decomp/total_area_weighted", r0["coef"][:2], [sum(r0["scoef"][n][4] * r0["S"][n] for n in r0["S"]) / Stot, sum(r0["scoef"][n][5] * r0["S"][n] for n in r0["S"]) / Stot],
             rtol=1e-12, atol=1e-15, tags=tags)
+    # aircraft lift and drag are q x sum(C_i S_i) of the surfaces' own coefficients, whatever reference area normalises the aircraft coefficients
+    o.close("decomp/aircraft_L_D", r0["LD"], [q * sum(r0["scoef"][n][4] * r0["S"][n] for n in r0["S"]), q * sum(r0["scoef"][n][5] * r0["S"][n] for n in r0["S"])],
+            rtol=1e-12, atol=1e-12, tags=tags)
     # ---- (a) density and speed (Mach number and Reynolds number are independent inputs of the model and stay fixed)
     a, b = c["a"], c["b"]
     fa = dict(flow, rho=fl["rho"] * a, v=fl["v"] * b)
